@@ -54,7 +54,9 @@ pub struct History {
     /// authorization rules of room version 2..=11
     pub version: u8,
     pub initial_power_levels: bool,
-    /// 0: timestamps as given; 1: all from {0,1,2}
+    /// bit 0: 0 timestamps as given, 1 all from {0,1,2}; bits 1-2: order of every event's
+    /// `auth_events` list (0 sorted by type as selected, 1 reversed, 2 rotated per event) - the
+    /// list is a set as far as the specification is concerned
     pub ts_mode: u8,
     pub ops: Vec<Op>,
     /// instances: each a selection of 2-4 DAG nodes whose states are merged
@@ -71,6 +73,7 @@ pub struct Room {
     pub skipped_ops: usize,
     pub merges: usize,
     counter: u32,
+    auth_order: u8,
 }
 
 const LEVELS: [i64; 5] = [0, 25, 50, 75, 100];
@@ -118,13 +121,21 @@ impl Room {
                 }
             }
         }
+        match self.auth_order {
+            1 => e.auth.reverse(),
+            2 if !e.auth.is_empty() => {
+                let k = (self.counter as usize + salt as usize) % e.auth.len();
+                e.auth.rotate_left(k);
+            }
+            _ => {}
+        }
         e
     }
 
     pub fn build(h: &History) -> Room {
-        let mut r = Room { version: h.version, events: BTreeMap::new(), order: vec![], state_after: BTreeMap::new(), heads: vec![], pdus: HashMap::new(), skipped_ops: 0, merges: 0, counter: 0 };
+        let mut r = Room { version: h.version, events: BTreeMap::new(), order: vec![], state_after: BTreeMap::new(), heads: vec![], pdus: HashMap::new(), skipped_ops: 0, merges: 0, counter: 0, auth_order: (h.ts_mode >> 1) & 3 };
         let ts = |t: u8| -> u64 {
-            if h.ts_mode == 1 {
+            if h.ts_mode & 1 == 1 {
                 (t % 3) as u64
             } else {
                 t as u64
@@ -511,11 +522,11 @@ pub fn history(max_ops: usize) -> impl Strategy<Value = History> {
     ];
     // early joins so that several users can act
     let warmup = prop::collection::vec((1u8..5, any::<u8>()).prop_map(|(user, salt)| Op::Act { head: 0, user, action: Action::Join, ts: 2, salt }), 1..4);
-    (2u8..=11, prop::bool::weighted(0.6), 0u8..3, warmup, prop::collection::vec(op, 0..max_ops), prop::collection::vec(prop::collection::vec(any::<u16>(), 2..5), 1..5)).prop_map(|(version, initial_power_levels, ts_mode, warmup, ops, picks)| {
+    (2u8..=11, prop::bool::weighted(0.6), (0u8..3, 0u8..3), warmup, prop::collection::vec(op, 0..max_ops), prop::collection::vec(prop::collection::vec(any::<u16>(), 2..5), 1..5)).prop_map(|(version, initial_power_levels, (ts_mode, auth_order), warmup, ops, picks)| {
         let mut all = warmup;
         // fork early so that branches diverge
         all.push(Op::Fork { head: 0 });
         all.extend(ops);
-        History { version, initial_power_levels, ts_mode: if ts_mode == 2 { 1 } else { 0 }, ops: all, picks }
+        History { version, initial_power_levels, ts_mode: (if ts_mode == 2 { 1 } else { 0 }) | (auth_order << 1), ops: all, picks }
     })
 }
